@@ -43,7 +43,20 @@ func Mutate(r *mon.Rand, s string, saddrs []string) string {
 	n := r.Range(1, 4)
 	for i := 0; i < n; i++ {
 		b := []byte(s)
-		switch r.Intn(12) {
+		switch r.Intn(14) {
+		case 12: // a delimited group ({...}, (...), [...], "...", '...'): delete it, empty it, or drop one delimiter
+			s = mutateGroup(r, s)
+		case 13: // delete a run of 2-4 consecutive tokens
+			toks := strings.Split(s, " ")
+			if len(toks) > 2 {
+				k := r.Intn(len(toks) - 1)
+				e := k + r.Range(2, 4)
+				if e > len(toks) {
+					e = len(toks)
+				}
+				toks = append(toks[:k], toks[e:]...)
+				s = strings.Join(toks, " ")
+			}
 		case 0: // byte flip
 			if len(b) > 0 {
 				b[r.Intn(len(b))] ^= byte(1 << r.Intn(8))
@@ -109,4 +122,41 @@ func Mutate(r *mon.Rand, s string, saddrs []string) string {
 		}
 	}
 	return s
+}
+
+// mutateGroup picks one delimited group of the line and deletes it (with the blank after it), empties it,
+// or removes only its opening or closing delimiter: structure the regular-expression based parts of the
+// parser (AVC messages, user-space msg='...') take for granted.
+func mutateGroup(r *mon.Rand, s string) string {
+	type span struct{ a, b int } // s[a] opens, s[b] closes
+	closer := map[byte]byte{'{': '}', '(': ')', '[': ']', '"': '"', '\'': '\''}
+	var spans []span
+	for i := 0; i < len(s); i++ {
+		if c, ok := closer[s[i]]; ok {
+			if j := strings.IndexByte(s[i+1:], c); j >= 0 {
+				spans = append(spans, span{i, i + 1 + j})
+				if s[i] == '"' || s[i] == '\'' {
+					i += 1 + j
+				}
+			}
+		}
+	}
+	if len(spans) == 0 {
+		return s
+	}
+	sp := mon.Pick(r, spans)
+	switch r.Intn(4) {
+	case 0:
+		e := sp.b + 1
+		for e < len(s) && s[e] == ' ' {
+			e++
+		}
+		return s[:sp.a] + s[e:]
+	case 1:
+		return s[:sp.a+1] + s[sp.b:]
+	case 2:
+		return s[:sp.a] + s[sp.a+1:]
+	default:
+		return s[:sp.b] + s[sp.b+1:]
+	}
 }
